@@ -216,3 +216,153 @@ class ResolverLang:
                 out = out | (self.L[i] - before)
             before = before | self.L[i]
         return out
+
+
+# ---------------------------------------------------------------------------------------------------------------------
+# character-level agreement between what PyYAML's emitter writes raw and what its reader / scanner hand back
+# (read from the installed yaml/emitter.py, yaml/scanner.py, yaml/reader.py; the conditions are interval tests on one
+#  character, interpreted here over the AST for a finite set of representative code points - no yaml code is run)
+
+
+class _CharEval:
+    """Interpreter for the character tests of the emitter: Compare / BoolOp / Not over `ch`, `self.allow_unicode`
+    and constants.  Unknown constructs raise, so a changed PyYAML fails the analysis instead of passing."""
+
+    def __init__(self, ch: str, allow_unicode: bool):
+        self.ch = ch
+        self.allow_unicode = allow_unicode
+
+    def ev(self, e: ast.AST):
+        if isinstance(e, ast.Constant):
+            return e.value
+        if isinstance(e, ast.Name) and e.id == "ch":
+            return self.ch
+        if isinstance(e, ast.Attribute) and isinstance(e.value, ast.Name) and e.value.id == "self" and e.attr == "allow_unicode":
+            return self.allow_unicode
+        if isinstance(e, ast.UnaryOp) and isinstance(e.op, ast.Not):
+            return not self.ev(e.operand)
+        if isinstance(e, ast.BoolOp):
+            vals = (self.ev(v) for v in e.values)
+            return all(vals) if isinstance(e.op, ast.And) else any(vals)
+        if isinstance(e, ast.Compare):
+            left = self.ev(e.left)
+            for op, right_e in zip(e.ops, e.comparators):
+                right = self.ev(right_e)
+                if left is None or right is None:
+                    res = (left is right) if isinstance(op, (ast.Is, ast.Eq)) else (left is not right) if isinstance(op, (ast.IsNot, ast.NotEq)) else None
+                    if res is None:
+                        raise AnalysisError("emitter character test compares None with an ordering operator")
+                elif isinstance(op, ast.Eq):
+                    res = left == right
+                elif isinstance(op, ast.NotEq):
+                    res = left != right
+                elif isinstance(op, ast.LtE):
+                    res = left <= right
+                elif isinstance(op, ast.Lt):
+                    res = left < right
+                elif isinstance(op, ast.GtE):
+                    res = left >= right
+                elif isinstance(op, ast.Gt):
+                    res = left > right
+                elif isinstance(op, ast.In):
+                    res = left in right
+                elif isinstance(op, ast.NotIn):
+                    res = left not in right
+                elif isinstance(op, ast.Is):
+                    res = left is right
+                elif isinstance(op, ast.IsNot):
+                    res = left is not right
+                else:
+                    raise AnalysisError(f"emitter character test uses operator {type(op).__name__}")
+                if not res:
+                    return False
+                left = right
+            return True
+        raise AnalysisError(f"emitter character test contains {type(e).__name__}: the model of PyYAML's emitter must be re-derived")
+
+
+def _yaml_func(module: str, cls: str, name: str) -> ast.FunctionDef:
+    p = os.path.join(yaml_dir(), module)
+    tree = ast.parse(open(p, encoding="utf-8").read())
+    for c in tree.body:
+        if isinstance(c, ast.ClassDef) and c.name == cls:
+            for f in c.body:
+                if isinstance(f, ast.FunctionDef) and f.name == name:
+                    return f
+    raise AnalysisError(f"yaml/{module}: {cls}.{name} not found")
+
+
+class CharModel:
+    def __init__(self):
+        # scanner: the characters scan_line_break consumes as a break (everything but '\n' is normalised / folded)
+        slb = _yaml_func("scanner.py", "Scanner", "scan_line_break")
+        self.breaks = set()
+        for c in ast.walk(slb):
+            if isinstance(c, ast.Compare) and isinstance(c.left, ast.Name) and c.left.id == "ch" and isinstance(c.ops[0], ast.In) and isinstance(c.comparators[0], ast.Constant) and isinstance(c.comparators[0].value, str):
+                self.breaks |= set(c.comparators[0].value)
+        if not {"\n", "\x85"} <= self.breaks:
+            raise AnalysisError("yaml/scanner.py: scan_line_break no longer lists its break characters as `ch in '...'`")
+        # reader: NON_PRINTABLE
+        rp = os.path.join(yaml_dir(), "reader.py")
+        rt = ast.parse(open(rp, encoding="utf-8").read())
+        pats = [s.value.args[0].value for c in rt.body if isinstance(c, ast.ClassDef) and c.name == "Reader" for s in c.body if isinstance(s, ast.Assign) and isinstance(s.targets[0], ast.Name) and s.targets[0].id == "NON_PRINTABLE" and isinstance(s.value, ast.Call) and s.value.args and isinstance(s.value.args[0], ast.Constant)]
+        if len(pats) != 1:
+            raise AnalysisError("yaml/reader.py: Reader.NON_PRINTABLE = re.compile('<class>') not found")
+        import re as _re
+
+        self.non_printable_src = pats[0]
+        self._np = _re.compile(pats[0])
+        # emitter: the test that decides `special_characters` in analyze_scalar, and the escape test of write_double_quoted
+        an = _yaml_func("emitter.py", "Emitter", "analyze_scalar")
+        outer = [i for i in ast.walk(an) if isinstance(i, ast.If) and any(isinstance(s, ast.Assign) and isinstance(s.targets[0], ast.Name) and s.targets[0].id == "special_characters" for s in ast.walk(i)) and "ch" in {n.id for n in ast.walk(i.test) if isinstance(n, ast.Name)}]
+        outer = [i for i in outer if not any(i is not j and any(x is i for x in ast.walk(j)) for j in outer)]
+        if len(outer) != 1:
+            raise AnalysisError("yaml/emitter.py: the `special_characters` decision of analyze_scalar changed shape")
+        self._special_if = outer[0]
+        wdq = _yaml_func("emitter.py", "Emitter", "write_double_quoted")
+        esc = [i for i in ast.walk(wdq) if isinstance(i, ast.If) and "ESCAPE_REPLACEMENTS" in ast.unparse(i) and "ch" in {n.id for n in ast.walk(i.test) if isinstance(n, ast.Name)}]
+        esc = [i for i in esc if not any(i is not j and any(x is i for x in ast.walk(j)) for j in esc)]
+        if len(esc) != 1:
+            raise AnalysisError("yaml/emitter.py: the escape decision of write_double_quoted changed shape")
+        self._escape_test = esc[0].test
+        # representative code points: every constant character of the three sources and its neighbours
+        consts = set(self.breaks)
+        for node in list(ast.walk(self._special_if)) + list(ast.walk(self._escape_test)):
+            if isinstance(node, ast.Constant) and isinstance(node.value, str):
+                consts |= set(node.value)
+        for m in _re.finditer(r".", pats[0], _re.S):
+            consts.add(m.group())
+        pts = set()
+        for c in consts:
+            for d in (-1, 0, 1):
+                o = ord(c) + d
+                if 0 <= o <= 0x10FFFF and not 0xD800 <= o <= 0xDFFF:
+                    pts.add(chr(o))
+        pts |= {chr(o) for o in (0x7F, 0x80, 0x9F, 0xA0, 0xFEFF, 0xFFFE, 0xFFFF, 0x10000, 0x10FFFF, 0x41, 0x20, 0xE9, 0x1F600)}
+        self.points = sorted(pts)
+
+    def non_printable(self, ch: str) -> bool:
+        return bool(self._np.match(ch))
+
+    def special(self, ch: str, allow_unicode: bool) -> bool:
+        """analyze_scalar sets special_characters for this character (=> the scalar is written double-quoted)."""
+        ev = _CharEval(ch, allow_unicode)
+
+        def run(stmts) -> bool:
+            hit = False
+            for s in stmts:
+                if isinstance(s, ast.If):
+                    hit = run(s.body if ev.ev(s.test) else s.orelse) or hit
+                elif isinstance(s, ast.Assign) and isinstance(s.targets[0], ast.Name) and s.targets[0].id == "special_characters":
+                    hit = True
+            return hit
+
+        return run([self._special_if])
+
+    def escaped_in_double_quotes(self, ch: str, allow_unicode: bool) -> bool:
+        return bool(_CharEval(ch, allow_unicode).ev(self._escape_test))
+
+    def survives_raw(self, ch: str) -> bool:
+        """Written raw, the character comes back unchanged: the reader accepts it and the scanner does not treat it
+        as a line break (a '\\n' is doubled by the emitter and restored by the scanner's folding)."""
+        return not self.non_printable(ch) and (ch not in self.breaks or ch == "\n")
